@@ -5,12 +5,12 @@ import UralModel.Model.C03
 Driver handlers for C03: the bridging assumptions and side conditions of the hierarchy
 theorems, evaluated on what the real parser returned.
 
-* `c03_bridge` `{parsed0, parsed, reparsed, puny}` → `[same, reparses]`
+* `c03_bridge` `{parsed0, parsed, reparsed, puny, quoted}` → `[same, reparses]`
   - `parsed0`  = the real parse of what `canonicalize_url` parses for `u` (https assumed),
   - `parsed`   = the real parse of what `normalize_url` parses for `u` (http assumed),
   - `reparsed` = the real parse of what `normalize_url` parses for the real `canonicalize_url(u)`;
   `same` = `parsed` and `parsed0` differ at most in the scheme (and the netloc string);
-  `reparses` = `Reparses (canonComps puny false false parsed0) reparsed` (the hypothesis `hR`
+  `reparses` = `Reparses (canonComps puny quoted false parsed0) reparsed` (the hypothesis `hR`
   of `normParts_reparse_canon`).
 * `c03_lower` `{parsed, lowered}` → `lowerParsed parsed = lowered` up to the netloc string
   (`lowered` = the real parse of what `normalize_url` parses for `u.lower()`).
@@ -31,7 +31,7 @@ def handle (f : String) (j : Json) : Option Json :=
     let p := parsedOf (field j "parsed")
     let p' := parsedOf (field j "reparsed")
     some (jlist [jbool (sameUpToScheme p p0),
-      jbool (decide (Reparses (canonComps puny false false p0) p'))])
+      jbool (decide (Reparses (canonComps puny (fieldBool j "quoted") false p0) p'))])
   | "c03_lower" =>
     let p := parsedOf (field j "parsed")
     let l := parsedOf (field j "lowered")
